@@ -17,6 +17,15 @@ CLAIMED = {
             "AST/type-resolved table extraction + call-site arity/verb checking (go/packages, go/types)", "§4 C16"),
 }
 
+CLAIMED.update({
+    "C02": ("Static decision of structural necessary conditions of crash-freedom: every first/last-element access, constant-bound slice and scanner lookahead is dominated by a guard implying it is in bounds (or tabled with its caller invariant); every panic operand is an error type; for every public entry point no explicit panic is reachable outside a recovering frame unless tabled with a reason; `any`-typed index arguments have an accepted static type. Does not decide loop termination, stack discipline of the scanners or memory use.",
+            "dominating-guard facts over the typed AST, panic/recover model over go/ssa + VTA call graph (catcher vs converter classification), reasoned tables", "§4 C02"),
+    "C09": ("Static decision that no observable result depends on Go's randomised map iteration order: every `range` over a map in scope is classified order-insensitive by construction or tabled with the reason at most one element can match. Does not decide equality across processes in general.",
+            "AST/SSA effect classification of every map range (callee may-panic and heap-write summaries over the VTA call graph)", "§4 C09"),
+    "C20": ("Exhaustive static decision over the closed vocabulary extracted from the source: IsValidType key set = declared types minus Undefined; the soft-equality relation on all 18x18 pairs is reflexive, symmetric and equals the documented families; json/schema token mappings agree for every json.Type; the literal classifiers are map-order independent and sibling implementations agree. Does not decide agreement of GuessSchemaType with the scanner on all literal texts.",
+            "constant-table extraction (map literals, switch tables) and finite relation checking; normalised clone comparison", "§4 C20"),
+})
+
 NOT_YET = {}
 
 NOT_APPLICABLE = {
